@@ -269,11 +269,17 @@ package core
 
 // The (begin, end) pair Selection.Pos() returns, as a function of the state.
 //@ spec clampi(x int, L int) int = max(0, min(L, x))
-//@ spec selB1(s *Selection) int = ite(crE(len(*s.line), s.bpos, s.epos) == -1, stcB(*s.line, s.visualLine, crB(len(*s.line), s.bpos, s.epos), clampi(s.cursor.pos, len(*s.line))), crB(len(*s.line), s.bpos, s.epos))
-//@ spec selE1(s *Selection) int = ite(crE(len(*s.line), s.bpos, s.epos) == -1, stcE(*s.line, s.visualLine, crB(len(*s.line), s.bpos, s.epos), clampi(s.cursor.pos, len(*s.line))), crE(len(*s.line), s.bpos, s.epos)) + ite(s.visual, 1, 0)
-//@ spec selok(s *Selection) bool = len(*s.line) != 0 && s.active && crV(len(*s.line), s.bpos, s.epos) && crV(len(*s.line), selB1(s), selE1(s))
-//@ spec selB(s *Selection) int = ite(selok(s), crB(len(*s.line), selB1(s), selE1(s)), -1)
-//@ spec selE(s *Selection) int = ite(selok(s), crE(len(*s.line), selB1(s), selE1(s)), -1)
+// generalised over the marked positions and the visual flags (so that "what Pos() would return after
+// Mark(p) / Visual(x)" can be stated)
+//@ spec selB1h(s *Selection, bp int, ep int, vl bool) int = ite(crE(len(*s.line), bp, ep) == -1, stcB(*s.line, vl, crB(len(*s.line), bp, ep), clampi(s.cursor.pos, len(*s.line))), crB(len(*s.line), bp, ep))
+//@ spec selE1h(s *Selection, bp int, ep int, vis bool, vl bool) int = ite(crE(len(*s.line), bp, ep) == -1, stcE(*s.line, vl, crB(len(*s.line), bp, ep), clampi(s.cursor.pos, len(*s.line))), crE(len(*s.line), bp, ep)) + ite(vis, 1, 0)
+//@ spec selokh(s *Selection, act bool, bp int, ep int, vis bool, vl bool) bool = len(*s.line) != 0 && act && crV(len(*s.line), bp, ep) && crV(len(*s.line), selB1h(s, bp, ep, vl), selE1h(s, bp, ep, vis, vl))
+//@ spec selBh(s *Selection, act bool, bp int, ep int, vis bool, vl bool) int = ite(selokh(s, act, bp, ep, vis, vl), crB(len(*s.line), selB1h(s, bp, ep, vl), selE1h(s, bp, ep, vis, vl)), -1)
+//@ spec selEh(s *Selection, act bool, bp int, ep int, vis bool, vl bool) int = ite(selokh(s, act, bp, ep, vis, vl), crE(len(*s.line), selB1h(s, bp, ep, vl), selE1h(s, bp, ep, vis, vl)), -1)
+//@ spec selBg(s *Selection, vis bool, vl bool) int = selBh(s, s.active, s.bpos, s.epos, vis, vl)
+//@ spec selEg(s *Selection, vis bool, vl bool) int = selEh(s, s.active, s.bpos, s.epos, vis, vl)
+//@ spec selB(s *Selection) int = selBg(s, s.visual, s.visualLine)
+//@ spec selE(s *Selection) int = selEg(s, s.visual, s.visualLine)
 
 //@ func (*Selection).checkRange
 //@   props C16 C17 C06 C01
@@ -436,3 +442,16 @@ package core
 //@   loop 2 decreases hpos + 2
 //@   loop 3 invariant 0 <= cpos && cpos <= len(*s.line) && 0 <= hpos
 //@   loop 3 decreases len(*s.line) - cpos
+
+
+//@ func (*Selection).Pop
+//@   props C17 C06 C01
+//@   terminates
+//@   requires svalid(s)
+//@   assigns s.Type, s.active, s.visual, s.visualLine, s.bpos, s.epos, s.kpos, s.fg, s.bg, s.surrounds, s.cursor.pos, s.cursor.mark
+//@   ensures [copy] old(selB(s)) != -1 && old(selE(s)) != -1 ==> result0 == str(old((*s.line)[selB(s):selE(s)])) && result1 == old(selB(s)) && result2 == old(selE(s))
+//@   ensures [copy-none] old(selB(s)) == -1 || old(selE(s)) == -1 ==> len(result0) == 0
+//@   ensures [cursor-at-begin] !old(s.visual && s.visualLine) && old(selB(s)) != -1 && old(selE(s)) != -1 ==> result3 == old(selB(s))
+//@   ensures [reset] old(len(*s.line)) > 0 ==> !s.active && !s.visual && !s.visualLine && s.bpos == -1 && s.epos == -1
+//@   ensures [cursor] old(cok(s.cursor)) ==> s.cursor.pos == old(s.cursor.pos) && s.cursor.mark == old(s.cursor.mark)
+//@   ensures [cursor] s.cursor.pos == old(s.cursor.pos) || s.cursor.pos == clampi(old(s.cursor.pos), len(*s.line))
